@@ -8,6 +8,7 @@
 
 #include <nix/Dimensions.hpp>
 
+#include <algorithm>
 #include <cmath>
 #include <nix/DataArray.hpp>
 #include <nix/util/util.hpp>
@@ -585,7 +586,8 @@ void RangeDimension::unit(const std::string &unit) {
 
 
 void RangeDimension::ticks(const std::vector<double> &ticks) {
-    if (!std::is_sorted(ticks.begin(), ticks.end())) {
+    // ascending: no neighbours with !(a <= b); unlike std::is_sorted this also refuses a NaN among the ticks
+    if (std::adjacent_find(ticks.begin(), ticks.end(), [](double a, double b) { return !(a <= b); }) != ticks.end()) {
         std::string caller = "Range::ticks()";
         throw UnsortedTicks(caller);
     }
